@@ -267,7 +267,23 @@ func specInScope(stack []scope, n int, s scope) bool {
 //@   ensures[C01] one-branch-per-case-in-order: err == nil && calls(evaluateExpression) > ite(old(p.peekAt(1)).tokenType == lexer.OPENING_CURLY_BRACKET, 0, 1) ==> isType(result0, "parser.If") && 1 + len(asType(result0, "parser.If").elifBranches) == calls(evaluateExpression) - ite(old(p.peekAt(1)).tokenType == lexer.OPENING_CURLY_BRACKET, 0, 1)
 //
 //@ func (*Parser).evaluateImports
+//@   loop 4 invariant[C09] merge-keeps-imported-edges: has(p.usedFuncs, funcName) && forall(k, 0, rangeindex + 1, inList(get(p.usedFuncs, funcName), usedFuncs[k])) && forall(j, 0, len(foundUsedFuncs), inList(get(p.usedFuncs, funcName), foundUsedFuncs[j]))
+//@   loop 4 exit[C09] every-imported-edge-of-this-caller-merged: forall(k, 0, len(usedFuncs), inList(get(p.usedFuncs, funcName), usedFuncs[k]))
 //@   loop 5 invariant[C09] imported-top-level-code-kept: len(statements) >= specCountOther(statementsTemp, rangeindex + 1)
+//
+//@ define inList(l, x): exists(i, 0, len(l), l[i] == x)
+//@ define calleesOf(p, f): get(p.usedFuncs, strings.TrimSpace(f))
+//
+// getUsedFuncs: the result contains every direct callee of startFunc and everything the
+// recursive calls on those callees return -- by induction over the (acyclic) call graph, every
+// function reachable from startFunc.
+//@ func (*Parser).getUsedFuncs
+//@   flag modular: true
+//@   loop 1 invariant[C09] callees-so-far-and-their-closures-included: calls(getUsedFuncs) == rangeindex + 1 && forall(k, 0, rangeindex + 1, inList(usedFuncs, calleesOf(p, startFunc)[k]) && arg(getUsedFuncs, k, 1) == calleesOf(p, startFunc)[k] && forall(j, 0, len(res(getUsedFuncs, k, 0)), inList(usedFuncs, res(getUsedFuncs, k, 0)[j])))
+//@   loop 2 invariant[C09] current-closure-so-far-included: calls(getUsedFuncs) >= 1 && calls(getUsedFuncs) <= len(calleesOf(p, startFunc)) && forall(k, 0, calls(getUsedFuncs), inList(usedFuncs, calleesOf(p, startFunc)[k]) && arg(getUsedFuncs, k, 1) == calleesOf(p, startFunc)[k]) && forall(k, 0, calls(getUsedFuncs) - 1, forall(j, 0, len(res(getUsedFuncs, k, 0)), inList(usedFuncs, res(getUsedFuncs, k, 0)[j]))) && forall(j, 0, rangeindex + 1, inList(usedFuncs, res(getUsedFuncs, calls(getUsedFuncs) - 1, 0)[j]))
+//@   ensures[C09] every-direct-callee-is-kept: has(p.usedFuncs, strings.TrimSpace(startFunc)) ==> forall(k, 0, len(calleesOf(p, startFunc)), inList(result, calleesOf(p, startFunc)[k]))
+//@   ensures[C09] closed-under-callees-of-callees: has(p.usedFuncs, strings.TrimSpace(startFunc)) ==> calls(getUsedFuncs) == len(calleesOf(p, startFunc)) && forall(k, 0, len(calleesOf(p, startFunc)), arg(getUsedFuncs, k, 1) == calleesOf(p, startFunc)[k] && forall(j, 0, len(res(getUsedFuncs, k, 0)), inList(result, res(getUsedFuncs, k, 0)[j])))
+//@   ensures[C09,C14] call-graph-untouched: sameExcept(p, old(p))
 //
 //@ func New
 //@   flag modular: true
